@@ -17,7 +17,7 @@ use crate::plan::Plan;
 use ruint::Uint;
 use std::str::FromStr;
 
-pub const NOPS: u64 = 115;
+pub const NOPS: u64 = 116;
 /// Operation kinds excluded from generated histories (`--skip-ops`): set by the supervisor after an
 /// operation took the whole process down (abort / hang), which is outside C04's statement; the other
 /// kinds are still judged. Applied when the plan is GENERATED, so every replay file stays exact.
@@ -381,11 +381,20 @@ pub struct Foreign {
     pub bits: usize,
     pub n: Num,
     pub canon: bool,
+    /// set when a constructor documented to REJECT out-of-range limbs returned a value instead
+    pub noreject: bool,
+}
+
+/// A rejecting constructor accepted out-of-range limbs (`NOREJECT`): C04's clause "constructors that
+/// are documented to reject out-of-range limbs do so (panic or None)". `limbs` is what it was given.
+fn accepted<const B: usize, const L: usize>(what: &'static str, u: Uint<B, L>) -> Foreign {
+    let (n, _) = num::observe(&u);
+    Foreign { what, bits: B, n, canon: true, noreject: true }
 }
 
 fn fo<const B2: usize, const L2: usize>(what: &'static str, u: Uint<B2, L2>) -> Foreign {
     let (n, canon) = num::observe(&u);
-    Foreign { what, bits: B2, n, canon }
+    Foreign { what, bits: B2, n, canon, noreject: false }
 }
 
 /// Run a piece that may panic on its own (documented panics) without losing the rest of the group.
@@ -749,6 +758,59 @@ fn apply2<const B: usize, const L: usize>(op: u64, a: Uint<B, L>, b: Uint<B, L>,
             v.extend(t(|| vec![<U<B, L>>::from((k >> 30) as f32)]));
             v
         }),
+        115 => ("rejecting constructors given out-of-range limbs", {
+            // from_limbs / from_limbs_slice are documented to panic and checked_from_limbs_slice to return
+            // None when the limbs denote a value >= 2^BITS. The harness builds limbs that are DEFINITELY out
+            // of range (a bit at a position >= BITS inside the top limb, or a non-zero limb beyond LIMBS) and
+            // reports every constructor that hands back a value (canonical or not) instead of rejecting.
+            let mut l = *a.as_limbs();
+            let pad = 64 * L - B; // unused bits in the top limb
+            if L > 0 && pad > 0 {
+                l[L - 1] |= 1u64 << (B % 64 + (k % pad as u64) as usize);
+                if k & (1 << 9) != 0 {
+                    l[L - 1] |= !Uint::<B, L>::MASK & b.as_limbs()[0].rotate_left((k % 64) as u32);
+                }
+                if let Guarded::Ok(u) = guard(|| Uint::<B, L>::from_limbs(l)) {
+                    f.push(accepted("from_limbs(top limb above MASK)", u));
+                }
+                if let Guarded::Ok(u) = guard(|| Uint::<B, L>::from_limbs_slice(&l)) {
+                    f.push(accepted("from_limbs_slice(top limb above MASK)", u));
+                }
+                if let Guarded::Ok(Some(u)) = guard(|| Uint::<B, L>::checked_from_limbs_slice(&l)) {
+                    f.push(accepted("checked_from_limbs_slice(top limb above MASK)", u));
+                }
+                // the same limbs followed by zero limbs are still out of range
+                let mut longer = l.to_vec();
+                longer.extend(std::iter::repeat(0).take(1 + (k % 3) as usize));
+                if let Guarded::Ok(u) = guard(|| Uint::<B, L>::from_limbs_slice(&longer)) {
+                    f.push(accepted("from_limbs_slice(top limb above MASK, zero tail)", u));
+                }
+                if let Guarded::Ok(Some(u)) = guard(|| Uint::<B, L>::checked_from_limbs_slice(&longer)) {
+                    f.push(accepted("checked_from_limbs_slice(top limb above MASK, zero tail)", u));
+                }
+            }
+            // in-range limbs followed by a non-zero limb somewhere beyond LIMBS: value >= 2^(64*LIMBS)
+            let mut tail = a.as_limbs().to_vec();
+            let extra = 1 + (k >> 12) as usize % 3;
+            let at = (k >> 16) as usize % extra;
+            for i in 0..extra {
+                tail.push(if i == at { (k >> 20) | 1 << (k % 64) } else if k & (1 << 10) != 0 { 0 } else { b.as_limbs().first().copied().unwrap_or(0) });
+            }
+            if let Guarded::Ok(u) = guard(|| Uint::<B, L>::from_limbs_slice(&tail)) {
+                f.push(accepted("from_limbs_slice(non-zero limb beyond LIMBS)", u));
+            }
+            if let Guarded::Ok(Some(u)) = guard(|| Uint::<B, L>::checked_from_limbs_slice(&tail)) {
+                f.push(accepted("checked_from_limbs_slice(non-zero limb beyond LIMBS)", u));
+            }
+            // control: the constructors must still ACCEPT what is in range (canonical limbs, short slices,
+            // zero tails) - returned as ordinary values for the canonical-limb / ordering oracles
+            let mut ok = a.as_limbs().to_vec();
+            ok.extend(std::iter::repeat(0).take((k % 3) as usize));
+            let mut v = vec![];
+            v.extend(t(|| vec![Uint::<B, L>::from_limbs(*a.as_limbs()), Uint::<B, L>::from_limbs_slice(&ok)]));
+            v.extend(t(|| o(Uint::<B, L>::checked_from_limbs_slice(&ok))));
+            v
+        }),
         _ => ("fixed-size byte-array constructors", {
             // from_be_bytes / from_le_bytes take [u8; BYTES]: BYTES cannot be named generically, so
             // fixed widths; they panic on out-of-range bytes, never return a non-canonical value
@@ -827,7 +889,12 @@ pub fn run<const B: usize, const L: usize>(ctx: &mut Ctx, plan: &Plan) {
                 }
                 for fv in foreign {
                     produced += 1;
-                    if !fv.canon {
+                    if fv.noreject {
+                        ctx.violate(
+                            "NOREJECT",
+                            format!("{}: Uint<{}> constructor documented to reject out-of-range limbs returned 0x{} instead of panicking / None", fv.what, fv.bits, num::hex(&fv.n)),
+                        );
+                    } else if !fv.canon {
                         ctx.violate(
                             "NONCANON",
                             format!("{}: Uint<{}> with bits set at positions >= BITS (limbs denote 0x{})", fv.what, fv.bits, num::hex(&fv.n)),
